@@ -501,3 +501,195 @@ Proof.
       apply andb_true_iff in Hp as [Hp _]. destruct (is_sep c); auto; discriminate. }
     rewrite Hs. reflexivity.
 Qed.
+
+(* ---- lexical equivalence ------------------------------------------------------------------------ *)
+
+Lemma fold_norm_snoc cs c st : fold_left norm_step (cs ++ [c]) st = norm_step (fold_left norm_step cs st) c.
+Proof. rewrite fold_left_app. reflexivity. Qed.
+
+Lemma repeat_snoc {A} (x : A) n : repeat x n ++ [x] = repeat x (S n).
+Proof. induction n as [|n IH]; simpl; auto. rewrite IH. reflexivity. Qed.
+
+Lemma norm_step_dotdot_dd n : norm_step (repeat DOTDOT n) DOTDOT = repeat DOTDOT (S n).
+Proof. destruct n; reflexivity. Qed.
+
+Lemma norm_step_dotdot_plain top st : plain top -> norm_step (top :: st) DOTDOT = st.
+Proof. intros [_ H]. apply str_eqb_neq in H. unfold norm_step. simpl. rewrite H. reflexivity. Qed.
+
+(* resolving the normal form from any stack is resolving the path itself *)
+Lemma fold_norm_via_normal cs st :
+  fold_left norm_step (rev (fold_left norm_step cs [])) st = fold_left norm_step cs st.
+Proof.
+  induction cs as [|c cs IH] using rev_ind; [reflexivity|].
+  rewrite !fold_norm_snoc, <- IH.
+  pose proof (fold_norm_nf cs [] nf_nil) as (names & n & E & Hn). rewrite E.
+  destruct (str_eqb c DOT1) eqn:E1.
+  { unfold norm_step. rewrite E1. reflexivity. }
+  destruct (str_eqb c DOTDOT) eqn:E2.
+  - apply str_eqb_eq in E2. subst c.
+    destruct names as [|top names].
+    + simpl app. rewrite norm_step_dotdot_dd. rewrite !rev_repeat.
+      rewrite <- repeat_snoc. rewrite fold_norm_snoc. reflexivity.
+    + inversion Hn as [|? ? Ht Hn']; subst.
+      change ((top :: names) ++ repeat DOTDOT n) with (top :: (names ++ repeat DOTDOT n)).
+      rewrite norm_step_dotdot_plain by auto.
+      change (rev (top :: (names ++ repeat DOTDOT n))) with (rev (names ++ repeat DOTDOT n) ++ [top]).
+      rewrite fold_norm_snoc. rewrite (norm_step_plain _ top Ht).
+      rewrite norm_step_dotdot_plain by auto. reflexivity.
+  - assert (P : plain c) by (apply str_eqb_neq in E1, E2; split; auto).
+    rewrite (norm_step_plain _ c P).
+    change (rev (c :: (names ++ repeat DOTDOT n))) with (rev (names ++ repeat DOTDOT n) ++ [c]).
+    rewrite fold_norm_snoc. reflexivity.
+Qed.
+
+Lemma lex_equiv_iff_normalise p q :
+  lex_equiv p q <-> normalise (components p) = normalise (components q).
+Proof.
+  unfold lex_equiv, normalise, resolve.
+  generalize (components p) as kp. generalize (components q) as kq. intros [aq cq] [ap cp].
+  cbn [fst snd]. split.
+  - intros [Hk Hr]. f_equal; auto. f_equal.
+    specialize (Hr []). destruct ap, aq; auto.
+  - intro H. injection H as Hk Hn. split; auto. intro cwd. subst aq.
+    apply (f_equal (@rev str)) in Hn. rewrite !rev_involutive in Hn.
+    rewrite <- (fold_norm_via_normal cp), <- (fold_norm_via_normal cq).
+    rewrite Hn. reflexivity.
+Qed.
+
+Lemma lex_equiv_refl p : lex_equiv p p.
+Proof. split; auto. Qed.
+Lemma lex_equiv_sym p q : lex_equiv p q -> lex_equiv q p.
+Proof. intros [H1 H2]. split; auto. Qed.
+Lemma lex_equiv_trans p q r : lex_equiv p q -> lex_equiv q r -> lex_equiv p r.
+Proof. intros [H1 H2] [H3 H4]. split; [congruence|]. intro cwd. rewrite H2. apply H4. Qed.
+
+Lemma simplify_lex_equiv_l p : lex_equiv (simplifyPath p) p.
+Proof. apply lex_equiv_iff_normalise. rewrite simplify_equivalent_l. apply normalise_idem. Qed.
+
+(* simplifyPath decides lexical equivalence: equivalent paths have the same simplified text *)
+Lemma simplify_canonical_l p q : lex_equiv p q <-> simplifyPath p = simplifyPath q.
+Proof.
+  split; intro H.
+  - apply lex_equiv_iff_normalise in H. rewrite !simplify_spec. unfold canon. rewrite H. reflexivity.
+  - eapply lex_equiv_trans; [apply lex_equiv_sym, simplify_lex_equiv_l|]. rewrite H. apply simplify_lex_equiv_l.
+Qed.
+
+(* ---- the scanners against the reference definitions -------------------------------------------- *)
+
+Lemma take_while_app_stop f a s b :
+  forallb f a = true -> f s = false -> take_while f (a ++ s :: b) = a.
+Proof.
+  intros Ha Hs. induction a as [|x a IH]; simpl in *.
+  - rewrite Hs. reflexivity.
+  - apply andb_true_iff in Ha as [H1 H2]. rewrite H1, IH by auto. reflexivity.
+Qed.
+
+Lemma drop_while_app_stop f a s b :
+  forallb f a = true -> f s = false -> drop_while f (a ++ s :: b) = s :: b.
+Proof.
+  intros Ha Hs. induction a as [|x a IH]; simpl in *.
+  - rewrite Hs. reflexivity.
+  - apply andb_true_iff in Ha as [H1 H2]. rewrite H1, IH by auto. reflexivity.
+Qed.
+
+Lemma take_while_all f a : forallb f a = true -> take_while f a = a.
+Proof. induction a as [|x a IH]; simpl; auto. intro H. apply andb_true_iff in H as [H1 H2]. rewrite H1, IH; auto. Qed.
+
+Lemma drop_while_all f a : forallb f a = true -> drop_while f a = [].
+Proof. induction a as [|x a IH]; simpl; auto. intro H. apply andb_true_iff in H as [H1 H2]. rewrite H1, IH; auto. Qed.
+
+Lemma forallb_rev {A} (f : A -> bool) l : forallb f (rev l) = forallb f l.
+Proof. induction l as [|x l IH]; simpl; auto. rewrite forallb_app, IH. simpl. rewrite andb_true_r. apply andb_comm. Qed.
+
+Lemma split_last_reference f p :
+  match split_last f p with
+  | Some (a, _, b) => before_last f p = Some a /\ after_last f p = b
+  | None => before_last f p = None /\ after_last f p = p
+  end.
+Proof.
+  destruct (split_last f p) as [[[a s] b]|] eqn:E.
+  - apply split_last_some in E as (-> & Hs & Hb). unfold before_last, after_last, free in *.
+    rewrite rev_app_distr. simpl rev. rewrite <- app_assoc. simpl app.
+    assert (Hb' : forallb (fun c => negb (f c)) (rev b) = true) by (rewrite forallb_rev; auto).
+    assert (Hs' : negb (f s) = false) by (rewrite Hs; reflexivity).
+    rewrite (drop_while_app_stop _ _ _ _ Hb' Hs'), (take_while_app_stop _ _ _ _ Hb' Hs').
+    rewrite !rev_involutive. auto.
+  - apply split_last_none in E. unfold before_last, after_last, free in *.
+    assert (E' : forallb (fun c => negb (f c)) (rev p) = true) by (rewrite forallb_rev; auto).
+    rewrite (drop_while_all _ _ E'), (take_while_all _ _ E'), rev_involutive. auto.
+Qed.
+
+Lemma dir_reference p : getDirectoryName p = spec_dir p.
+Proof.
+  unfold getDirectoryName, spec_dir. pose proof (split_last_reference is_sep p) as H.
+  destruct (split_last is_sep p) as [[[a s] b]|]; destruct H as [-> _]; reflexivity.
+Qed.
+
+Lemma last_component_reference p : last_component p = spec_base p.
+Proof.
+  unfold last_component, spec_base. pose proof (split_last_reference is_sep p) as H.
+  destruct (split_last is_sep p) as [[[a s] b]|]; destruct H as [_ ->]; reflexivity.
+Qed.
+
+Lemma base_reference p : getBaseName p [] = spec_base p.
+Proof. apply last_component_reference. Qed.
+
+Lemma stem_reference p : getStem p [] = spec_stem p.
+Proof.
+  unfold getStem, spec_stem. rewrite last_component_reference.
+  pose proof (split_last_reference is_dot (spec_base p)) as H.
+  destruct (split_last is_dot (spec_base p)) as [[[a s] b]|]; destruct H as [-> _]; reflexivity.
+Qed.
+
+Lemma ext_reference p : getExtension p = spec_ext p.
+Proof.
+  unfold getExtension, spec_ext. rewrite last_component_reference.
+  pose proof (split_last_reference is_dot (spec_base p)) as H.
+  destruct (split_last is_dot (spec_base p)) as [[[a s] b]|]; destruct H as [-> H2]; auto.
+Qed.
+
+Lemma skipn_cons_nth k (r : str) x e :
+  (k < length r)%nat ->
+  (str_eqb (skipn k r) (x :: e) = (nth k r 0 =? x) && str_eqb (skipn (S k) r) e).
+Proof.
+  revert r; induction k as [|k IH]; intros [|y r] Hk; simpl in Hk; try lia.
+  - reflexivity.
+  - apply IH. lia.
+Qed.
+
+Lemma base_ext_reference p e : getBaseName p e = spec_base_ext p e.
+Proof.
+  unfold getBaseName, spec_base_ext, ends_with. rewrite last_component_reference.
+  set (b := spec_base p). destruct e as [|e0 e']; [reflexivity|]. set (e := e0 :: e').
+  unfold is_dot. destruct (e0 =? 46) eqn:E0; [reflexivity|].
+  cbn [length]. fold (length e).
+  replace (length e + 1)%nat with (S (length e)) by lia.
+  destruct (S (length e) <=? length b)%nat eqn:L; [|reflexivity]. cbn [andb].
+  apply Nat.leb_le in L.
+  rewrite (skipn_cons_nth (length b - S (length e)) b 46 e) by lia.
+  replace (S (length b - S (length e))) with (length b - length e)%nat by lia.
+  reflexivity.
+Qed.
+
+Lemma abs_reference p : isAbsolutePath p = spec_is_absolute p.
+Proof.
+  unfold isAbsolutePath, spec_is_absolute, starts_with_sep.
+  destruct p as [|c0 [|c1 t]]; try reflexivity.
+  destruct (c1 =? 58) eqn:E.
+  - apply Z.eqb_eq in E. subst c1. destruct t as [|c2 t]; reflexivity.
+  - assert (R : forall (A : Type) (x y : A), (match c1 with 58 => x | _ => y end) = y).
+    { intros A x y. destruct c1 as [|c1|c1]; try reflexivity.
+      repeat (destruct c1 as [c1|c1|]; try reflexivity). discriminate. }
+    destruct t as [|c2 t].
+    + f_equal. symmetry. apply (R bool).
+    + f_equal. cbn [andb]. symmetry.
+      change (match c1 with 58 => is_sep c2 | _ => false end = false). apply (R bool).
+Qed.
+
+Lemma scanners_reference p e :
+  getDirectoryName p = spec_dir p /\ getBaseName p [] = spec_base p /\ getStem p [] = spec_stem p /\
+  getExtension p = spec_ext p /\ getBaseName p e = spec_base_ext p e /\ isAbsolutePath p = spec_is_absolute p.
+Proof.
+  repeat split; [apply dir_reference|apply base_reference|apply stem_reference|apply ext_reference|
+                 apply base_ext_reference|apply abs_reference].
+Qed.
